@@ -90,10 +90,35 @@ def dumps(x, **kw):
     return json.dumps(x, default=jsonable, **kw)
 
 
+_CORPUS = {}
+
+
+def corpus_inputs(cl):
+    """committed minimised past failures (corpus/<ID>/*.json with keys clause,input) run first"""
+    pid = _CORPUS.get("pid")
+    if not pid:
+        return []
+    if "items" not in _CORPUS:
+        items = []
+        d = os.path.join(VERIF, "corpus", pid)
+        if os.path.isdir(d):
+            for f in sorted(os.listdir(d)):
+                if f.endswith(".json"):
+                    try:
+                        items.append(json.load(open(os.path.join(d, f))))
+                    except Exception:
+                        pass
+        _CORPUS["items"] = items
+    return [it["input"] for it in _CORPUS["items"] if it.get("clause") == cl.name]
+
+
 def run_clause(cl, rng, n, driver, stats, replay_input=None):
     """returns (failures, evaluations, distinct_nontrivial, samples)"""
     t0 = time.time()
-    inputs = [replay_input] if replay_input is not None else list(cl.gen(rng, n))
+    if replay_input is not None:
+        inputs = [replay_input]
+    else:
+        inputs = corpus_inputs(cl) + list(cl.gen(rng, n))
     obs = []
     for inp in inputs:
         try:
@@ -165,6 +190,7 @@ def _main(a, pid, tier, seed, t0):
     except Exception as e:
         print(f"INFRA: cannot import geometry_tools from {REPO}: {e!r}")
         return 2
+    _CORPUS["pid"] = pid
     mod = importlib.import_module(f"props.{pid}")
     clauses = mod.CLAUSES
     level = getattr(mod, "LEVEL", "proof")
@@ -237,7 +263,7 @@ def _main(a, pid, tier, seed, t0):
             known_hit[kf["id"]] = (kf, known_hit[kf["id"]][1] + 1)
             continue
         sig = (f["clause"], dumps(f.get("tags", {}), sort_keys=True))
-        if sig in seen_sig:
+        if sig in seen_sig or len(seen_sig) >= 5:
             continue
         seen_sig.add(sig)
         path = os.path.join(VERIF, "replays", f"{pid}-{seed}-{k}.json")
@@ -287,8 +313,11 @@ def _main(a, pid, tier, seed, t0):
     evd = {"property_id": pid, "tier": tier if tier in ("quick", "thorough") else "quick", "seed": seed, "level": level,
            "coverage": cov, "assumptions": getattr(mod, "ASSUMPTIONS", []), "wall_s": round(wall, 2),
            "violations": len(lines)}
-    os.makedirs(os.path.join(VERIF, "evidence"), exist_ok=True)
-    with open(os.path.join(VERIF, "evidence", f"{pid}.json"), "w") as fh:
+    evdir = os.environ.get("VERIF_EVIDENCE_DIR", os.path.join(VERIF, "evidence"))
+    if a.skip_lean or a.only:
+        evdir = "/tmp/verif_debug_evidence"      # debug runs never overwrite real evidence
+    os.makedirs(evdir, exist_ok=True)
+    with open(os.path.join(evdir, f"{pid}.json"), "w") as fh:
         fh.write(dumps(evd, indent=1))
     for ln in lines:
         print(ln)
